@@ -394,7 +394,10 @@ func HarnessC06AnchorWide() {
 	s1, s2 := verif.Int64("s1"), verif.Int64("s2")
 	n1, n2 := verif.Int64("n1"), verif.Int64("n2")
 	lim := int64(1) << uint(verif.Param("SECBITS", 33))
-	verif.Assume(verif.And(verif.And(s1 >= 0, s1 < lim), verif.And(s2 >= 0, s2 < lim)))
+	// the window starts in 1970 or at Go's zero time (year 1); inside a window of
+	// 2^33 seconds UnixNano does not wrap around
+	base := []int64{0, -62135596800}[verif.Choice("base", 2)]
+	verif.Assume(verif.And(verif.And(s1 >= base, s1 < base+lim), verif.And(s2 >= base, s2 < base+lim)))
 	verif.Assume(verif.And(verif.And(n1 >= 0, n1 < 1000000000), verif.And(n2 >= 0, n2 < 1000000000)))
 	a, e1 := predicate.NewTemporal("p", time.Unix(s1, n1).UTC())
 	b, e2 := predicate.NewTemporal("p", time.Unix(s2, n2).UTC())
@@ -405,4 +408,7 @@ func HarnessC06AnchorWide() {
 	}
 	verif.Reach("uuids")
 	verif.Assert(uuid.Equal(ua, ub) == verif.And(s1 == s2, n1 == n2), "C06/anchor/uuid-iff-same-instant")
+	im, e3 := predicate.NewImmutable("p")
+	verif.Assume(e3 == nil)
+	verif.Assert(!uuid.Equal(ua, im.UUID()), "C06/anchor/temporal-never-equals-immutable")
 }
